@@ -89,6 +89,12 @@ def fev_term(e):
     raise ValueError(e)
 
 
+def fev2_term(e):
+    if e[0] == 'fail':
+        return '(FFail %d)' % e[1]
+    return '(F1 %s)' % fev_term(e)
+
+
 def content_py(t):
     '''parsed Coq content -> the nested lists the driver prints'''
     if t == ('CNone',) or t is None:
@@ -102,14 +108,16 @@ def model_eval(ctx, results):
     exprs = []
     for r in results:
         c = fcfg_term(r['graph'])
-        es = '[' + '; '.join(fev_term(e) for e in r['events']) + ']'
-        exprs.append('let c := %s in let es := %s in let f := frun_all c (finit c) es in '
-                     '(ftrace c (finit c) es, store_dump f, quiescent c f, stale_values c f, '
-                     'nonoverlap c (finit c) es)' % (c, es))
-    vals = ctx.coq_eval(['DV.Model.Sched', 'DV.Model.Flow'], exprs, z_scope=False, chunk=8)
+        es = '[' + '; '.join(fev2_term(e) for e in r['events']) + ']'
+        # Model/Flow2.v = Model/Flow.v + failing runs; on a history without a
+        # failure its run IS the run of Flow.v (Proofs/Flow2Inv.v frun_all2_embed)
+        exprs.append('let c := %s in let es := %s in let g := frun_all2 c (finit2 c) es in let f := fs g in '
+                     '(ftrace2 c (finit2 c) es, store_dump f, quiescent c f, stale_values c f, '
+                     'nonoverlap2 c (finit2 c) es, wd_units g, locally_stale c f)' % (c, es))
+    vals = ctx.coq_eval(['DV.Model.Sched', 'DV.Model.Flow', 'DV.Model.Flow2'], exprs, z_scope=False, chunk=8)
     out = []
     for v in vals:
-        tr, dump, q, stale, nov = v
+        tr, dump, q, stale, nov, wdu, lst = v
         obs = []
         for (que, nodes, cluster, nxt) in tr:
             obs.append({'que': que,
@@ -117,7 +125,8 @@ def model_eval(ctx, results):
                         'cluster': [list(m) for m in cluster], 'next': nxt})
         store = sorted(([r, t, vn, content_py(cn)] for r, t, vn, cn in dump), key=lambda e: e[:3])
         out.append({'obs': obs, 'store': store, 'quiescent': q, 'stale': sorted(list(x) for x in stale),
-                    'nonoverlap': nov})
+                    'nonoverlap': nov, 'wd': sorted(list(x) for x in wdu),
+                    'lstale': sorted(list(x) for x in lst)})
     return out
 
 
@@ -193,6 +202,120 @@ def oracle(r):
     return bad
 
 
+# ---- the end-state oracle for histories with FAILED runs -------------------
+# (implementation's observations only)  A failed run of (x, T) withdraws T from x
+# and from everything below x (schedule.purge).  Statement checked:
+#  (1) every (algorithm, target) none of whose upstream units (itself included,
+#      upstream = along declared inputs) is withdrawn holds the from-scratch
+#      content;
+#  (2) a withdrawn unit holds what it held when it was withdrawn.
+# withdrawn = reached by the purge of a failed run and no successful run since.
+def has_fail(r):
+    return any(e[0] == 'fail' for e in r['events'])
+
+
+def below(g, x):
+    seen, todo = set(), [x]
+    while todo:
+        y = todo.pop()
+        if y not in seen:
+            seen.add(y)
+            todo.extend(g['nodes'][y]['kids'])
+    return seen
+
+
+def above(g, x):
+    own = {v: y for y, nd in enumerate(g['nodes']) for v in nd['outs']}
+    seen, todo = set(), [x]
+    while todo:
+        y = todo.pop()
+        if y not in seen:
+            seen.add(y)
+            todo.extend(own[i] for i in g['nodes'][y]['ins'])
+    return seen
+
+
+def latest_of(store):
+    best = {}
+    for rid, t, v, c in store:
+        if (t, v) not in best or rid > best[(t, v)][0]:
+            best[(t, v)] = (rid, c)
+    return best
+
+
+def withdrawn(r):
+    g = r['graph']
+    W = {}
+    for e, o in zip(r['events'], r['obs']):
+        if e[0] == 'fail' and o.get('failed'):
+            x, t = o['failed']
+            now = latest_of(o['store_now'])
+            for y in sorted(below(g, x)):
+                if (y, t) not in W:
+                    W[(y, t)] = {v: now.get((t, v), (None, None))[1] for v in g['nodes'][y]['outs']}
+        elif e[0] == 'run' and o.get('ran'):
+            W.pop(tuple(o['ran']), None)
+    return W
+
+
+def local_stale(r):
+    '''units whose latest content is not what the algorithm computes from the
+    latest content of its inputs'''
+    g = r['graph']
+    rin = {(x, t): k for x, t, k in r['root_in']}
+    got = latest_of(r['store'])
+    out = []
+    for t in range(1, len(g['tnames'])):
+        for x, nd in enumerate(g['nodes']):
+            ins = [got.get((t, i), (None, None))[1] for i in nd['ins']]
+            base = rin.get((x, t), 0) if not nd['ins'] else 0
+            if any(got.get((t, v), (None, None))[1] != [v, t, base, ins] for v in nd['outs']):
+                out.append([t, x])
+    return out
+
+
+def oracle_fail(r):
+    '''list of (target, value, got, want) violating (1) or (2) at a quiescent end'''
+    if not r['quiescent']:
+        return []
+    g = r['graph']
+    W = withdrawn(r)
+    want = scratch(r)
+    got = latest_of(r['store'])
+    bad = []
+    for t in range(1, len(g['tnames'])):
+        for x, nd in enumerate(g['nodes']):
+            if any((a, t) in W for a in above(g, x)):
+                continue
+            for v in nd['outs']:
+                gv = got.get((t, v), (None, None))[1]
+                if gv != want[(t, v)]:
+                    bad.append([t, v, gv, want[(t, v)]])
+    for (y, t), held in sorted(W.items()):
+        for v, c in sorted(held.items()):
+            gv = got.get((t, v), (None, None))[1]
+            if gv != c:
+                bad.append([t, v, gv, c])
+    return bad
+
+
+# c (of the diamond) fails in the first event: d is withdrawn although b reported
+# a new value; the second event re-runs everything (= Flow2.ex_fail_hist2)
+FAIL1 = {
+    'name': 'directed-fail-diamond', 'desc': DIAMOND, 'targets': ['T1'],
+    'events': [['chg', [0], [1]], ['tick'], ['run', 0], ['tick'], ['run', 0], ['fail', 0], ['tick'],
+               ['chg', [0], [1]], ['tick'], ['run', 0], ['tick'], ['run', 1], ['run', 0], ['tick'], ['run', 0]],
+}
+# two roots: c fails for T1 (d withdrawn for T1), then d fails for T2; only a
+# changes afterwards: d is re-run for T1 and reads c's missing value; c stays withdrawn
+FAIL2 = {
+    'name': 'directed-fail-vee', 'desc': VEE, 'targets': ['T1', 'T2'],
+    'events': [['chg', [0, 1], [1, 2]], ['tick'], ['run', 0], ['run', 2], ['run', 0], ['run', 0], ['tick'],
+               ['run', 1], ['fail', 0], ['tick'], ['fail', 0], ['chg', [0], [1]], ['tick'], ['run', 0], ['tick'],
+               ['run', 0]],
+}
+
+
 def gen_cases(ctx, n, profile, label):
     cases = []
     names = ['vee', 'tworoots', 'diamond', 'chain3']
@@ -206,6 +329,15 @@ def gen_cases(ctx, n, profile, label):
     return cases
 
 
+def gen_fail_cases(ctx, n):
+    cases = gen_cases(ctx, n, 'nonoverlap', 'flow-fail')
+    for i, c in enumerate(cases):
+        c['pfail'] = 0.3
+        c['maxchg'] = 4
+        c['nev'] += 8
+    return cases
+
+
 def study(ctx):
     '''returns (n histories, nontrivial keys)'''
     ctx.trust('Flow.v + drive_flow.py correspondence (fakes: in-memory AE packages whose run() stores a canonical text of what was loaded, db socket hop short-circuited, lock stubs, fsm stub, md5sum/sha1sum answered by hashlib after the first real calls agreed)')
@@ -214,6 +346,7 @@ def study(ctx):
     cases = [w, HIGHER, THREE]
     cases += gen_cases(ctx, ctx.n(2, 12), 'nonoverlap', 'flow-no')
     cases += gen_cases(ctx, ctx.n(1, 12), 'overlap', 'flow-ov')
+    cases += [FAIL1, FAIL2] + gen_fail_cases(ctx, ctx.n(2, 16))
     res = ctx.harness('drive_flow.py', {'cases': cases}, timeout=3000)['cases']
     for c, r in zip(cases, res):
         r['name'] = c['name']
@@ -228,25 +361,33 @@ def study(ctx):
             ctx.broken('drive_flow.py: the hashlib stand-in disagrees with md5sum/sha1sum', r['name'],
                        {'source': 'flow', 'case': r['name']})
         mm = first_mismatch(r, m)
-        bad = oracle(r)
+        wf = has_fail(r)
+        bad = oracle_fail(r) if wf else oracle(r)
         ov = overlapping(r)
         if ov != (not m['nonoverlap']) and mm is None:
             mm = (0, ['nonoverlap'], ov, m['nonoverlap'])
         if bad:
             cause = 'overlapping-change-events' if ov else 'non-overlapping-change-events'
             ctx.violation('endstate-stale', {'cause': cause},
-                          'C02 end state: at quiescence the latest stored content of %d value(s) differs from a '
-                          'from-scratch run in dependency order (history %s, %s): e.g. target %d value %s holds %s, '
-                          'from scratch %s'
-                          % (len(bad), r['name'], cause, bad[0][0], r['graph']['vnames'][bad[0][1]],
+                          'C02 end state: at quiescence the latest stored content of %d value(s) differs from %s '
+                          '(history %s, %s): e.g. target %d value %s holds %s, expected %s'
+                          % (len(bad), 'a from-scratch run in dependency order (units with all upstream runs '
+                             'succeeded) or from what a withdrawn unit held' if wf else
+                             'a from-scratch run in dependency order', r['name'], cause, bad[0][0], r['graph']['vnames'][bad[0][1]],
                              json.dumps(bad[0][2]), json.dumps(bad[0][3])),
                           {'source': 'flow', 'case': {'desc': r['desc'], 'targets': r['graph']['tnames'][1:],
                                                       'events': r['events']}})
             if r['name'] == w['name'] and ov:
                 hit_witness = True
         # the model must agree about staleness, too
-        if mm is None and r['quiescent'] and sorted(b[:2] for b in bad) != m['stale']:
+        if mm is None and r['quiescent'] and not wf and sorted(b[:2] for b in bad) != m['stale']:
             mm = (len(r['obs']), ['stale'], sorted(b[:2] for b in bad), m['stale'])
+        if mm is None and wf:
+            wi = sorted([y, t] for (y, t) in withdrawn(r))
+            if wi != m['wd']:
+                mm = (len(r['obs']), ['withdrawn'], wi, m['wd'])
+            elif sorted(local_stale(r)) != m['lstale']:
+                mm = (len(r['obs']), ['locally-stale'], sorted(local_stale(r)), m['lstale'])
         if mm is not None:
             nmis += 1
             parted.append((r, mm))
@@ -254,6 +395,10 @@ def study(ctx):
         nchg = sum(1 for e in r['events'] if e[0] == 'chg')
         if nchg >= 2 and nruns >= 4 and r['quiescent']:
             keys.append('flow:' + r['name'])
+        if wf and r['quiescent'] and nruns >= 3 and any(
+                e[0] == 'fail' and o.get('failed') and len(below(r['graph'], o['failed'][0])) > 1
+                for e, o in zip(r['events'], r['obs'])):
+            keys.append('flow-fail:' + r['name'])
     for r, mm in parted:
         if ctx.nviol:
             ctx.note('flow_mismatch_explained_by_violation', True)
@@ -271,6 +416,9 @@ def study(ctx):
     ctx.note('flow_histories', len(res))
     ctx.note('flow_events', sum(len(r['events']) for r in res))
     ctx.note('flow_runs_through_real_store', sum(1 for r in res for e in r['events'] if e[0] == 'run'))
+    ctx.note('flow_failed_runs_through_real_worker', sum(1 for r in res for e in r['events'] if e[0] == 'fail'))
+    ctx.note('flow_histories_with_failures', sum(1 for r in res if has_fail(r)))
+    ctx.note('flow_units_withdrawn_at_end', sum(len(withdrawn(r)) for r in res if has_fail(r)))
     ctx.note('flow_overlapping_histories', sum(1 for r in res if overlapping(r)))
     ctx.note('flow_mismatches', nmis)
     return len(res), keys
@@ -282,7 +430,7 @@ def replay(ctx, obj):
     res[0]['name'] = 'replay'
     model = model_eval(ctx, res)
     mm = first_mismatch(res[0], model[0])
-    bad = oracle(res[0])
+    bad = oracle_fail(res[0]) if has_fail(res[0]) else oracle(res[0])
     ctx.log('replay: mismatch=%s stale=%s overlapping=%s' % (mm, bad, overlapping(res[0])))
     if bad:
         ctx.violation('endstate-stale',
